@@ -13,7 +13,8 @@ ASSUME = c02.ASSUME + [
 
 def run(tier):
     return c02.run_e2(PID, tier, ASSUME, grammars=("act_loc", "act_inline", "act_plain"),
-                      relevant=lambda c: any(x in c for x in c02.LOCATION))
+                      relevant=lambda c: any(x in c for x in c02.LOCATION),
+                      whole=(("act_loc", "act_inline"), ("args",)))
 
 
 def replay(path):
